@@ -30,7 +30,8 @@ pub struct Op17(pub Vec<Target>);
 #[derive(Clone, Debug, PartialEq, Eq, Hash)]
 pub enum Rec
 {
-    Run{ func: u8, local: u32, input: u32 },
+    /// `added`: entities matched by the system's `Added<Marker>` query (its change-detection cursor is system state)
+    Run{ func: u8, local: u32, input: u32, added: u32 },
     Ret{ target: Target, result: Option<u32> },
     /// A command queued by a run has been applied.
     Applied,
@@ -47,12 +48,17 @@ thread_local!
 #[derive(Resource, Default)]
 struct AppliedCount(u32);
 
-fn body(func: u8, x: u32, local: &mut u32, c: &mut Commands) -> u32
+/// Spawned by every applied command; counted by every system through an `Added<Marker>` filter.
+#[derive(Component)]
+struct Marker;
+
+fn body(func: u8, x: u32, local: &mut u32, added: u32, c: &mut Commands) -> u32
 {
     *local += 1;
-    LOG.with(|l| l.borrow_mut().push(Rec::Run{ func, local: *local, input: x }));
+    LOG.with(|l| l.borrow_mut().push(Rec::Run{ func, local: *local, input: x, added }));
     c.queue(|w: &mut World| {
         w.resource_mut::<AppliedCount>().0 += 1;
+        w.spawn(Marker);
         LOG.with(|l| l.borrow_mut().push(Rec::Applied));
         // nested call, made from a command of the enclosing call
         let next = PLAN.with(|p| { let mut p = p.borrow_mut(); if p.is_empty() { None } else { Some(p.remove(0)) } });
@@ -61,17 +67,33 @@ fn body(func: u8, x: u32, local: &mut u32, c: &mut Commands) -> u32
     *local * 1000 + x
 }
 
-fn sys_f(In(x): In<u32>, mut local: Local<u32>, mut c: Commands) -> u32 { body(0, x, &mut local, &mut c) }
-fn sys_g(In(x): In<u32>, mut local: Local<u32>, mut c: Commands) -> u32 { body(1, x, &mut local, &mut c) }
+fn sys_f(In(x): In<u32>, mut local: Local<u32>, q: Query<(), Added<Marker>>, mut c: Commands) -> u32
+{
+    body(0, x, &mut local, q.iter().count() as u32, &mut c)
+}
+fn sys_g(In(x): In<u32>, mut local: Local<u32>, q: Query<(), Added<Marker>>, mut c: Commands) -> u32
+{
+    body(1, x, &mut local, q.iter().count() as u32, &mut c)
+}
+/// Exclusive flavour: its parameter state (`Local`, `QueryState`) is rebuilt by Bevy whenever the system is initialised
+/// again, and its commands go through the world's own queue.
+fn sys_x(In(x): In<u32>, world: &mut World, mut local: Local<u32>, q: &mut QueryState<(), Added<Marker>>) -> u32
+{
+    let added = q.iter(world).count() as u32;
+    let mut c = world.commands();
+    body(2, x, &mut local, added, &mut c)
+}
 
 fn call(world: &mut World, t: Target, x: u32)
 {
     let result: Option<u32> = match t
     {
         Target::Sys(0) => Some(syscall(world, x, sys_f)),
-        Target::Sys(_) => Some(syscall(world, x, sys_g)),
+        Target::Sys(1) => Some(syscall(world, x, sys_g)),
+        Target::Sys(_) => Some(syscall(world, x, sys_x)),
         Target::Named(n, 0) => Some(named_syscall(world, if n == 0 { "n0" } else { "n1" }, x, sys_f)),
-        Target::Named(n, _) => Some(named_syscall(world, if n == 0 { "n0" } else { "n1" }, x, sys_g)),
+        Target::Named(n, 1) => Some(named_syscall(world, if n == 0 { "n0" } else { "n1" }, x, sys_g)),
+        Target::Named(n, _) => Some(named_syscall(world, if n == 0 { "n0" } else { "n1" }, x, sys_x)),
         Target::Spawned(i) =>
         {
             let id = IDS.with(|ids| ids.borrow()[i as usize]);
@@ -79,7 +101,7 @@ fn call(world: &mut World, t: Target, x: u32)
         }
         Target::SpawnedMissing =>
         {
-            let id = IDS.with(|ids| ids.borrow()[2]);
+            let id = IDS.with(|ids| ids.borrow()[3]);
             spawned_syscall::<In<u32>, u32>(world, id, x).ok()
         }
     };
@@ -94,11 +116,14 @@ pub struct Model17
 {
     pub counters: BTreeMap<Target, u32>,
     pub applied: u32,
+    /// Change-detection cursor per key: how many markers existed at the point up to which the key's system has looked
+    /// (ordinary systems: the start of their previous run; exclusive systems: the return of their previous run).
+    pub seen: BTreeMap<Target, u32>,
 }
 
 fn func_of(t: Target) -> u8
 {
-    match t { Target::Sys(f) => f.min(1), Target::Named(_, f) => f.min(1), Target::Spawned(i) => i.min(1), Target::SpawnedMissing => 0 }
+    match t { Target::Sys(f) => f.min(2), Target::Named(_, f) => f.min(2), Target::Spawned(i) => i.min(2), Target::SpawnedMissing => 0 }
 }
 
 impl Model17
@@ -122,24 +147,31 @@ impl Model17
             }
             _ => {}
         }
-        let local = if active.contains(&t)
+        let recursive = active.contains(&t);
+        let exclusive = func_of(t) == 2;
+        let markers = self.applied;
+        let (local, added) = if recursive
         {
             // documented: a recursive invocation runs on fresh state that does not persist
-            1
+            (1, markers)
         }
         else
         {
             let c = self.counters.entry(t).or_insert(0);
             *c += 1;
-            *c
+            let seen = self.seen.get(&t).copied().unwrap_or(0);
+            if !exclusive { self.seen.insert(t, markers); }
+            (*c, markers - seen)
         };
-        log.push(Rec::Run{ func: func_of(t), local, input: x });
+        log.push(Rec::Run{ func: func_of(t), local, input: x, added });
         // the run's command is applied before the call returns, and makes the nested call
         self.applied += 1;
         log.push(Rec::Applied);
         active.push(t);
         self.call(rest, active, log);
         active.pop();
+        // an exclusive system's cursor moves to the point of its return
+        if exclusive && !recursive { let m = self.applied; self.seen.insert(t, m); }
         log.push(Rec::Ret{ target: t, result: Some(local * 1000 + x) });
     }
 }
@@ -162,9 +194,10 @@ pub fn run17(hist: &[Op17]) -> StepResult<Key17>
     world.init_resource::<AppliedCount>();
     let id0 = spawn_system(&mut world, sys_f);
     let id1 = spawn_system(&mut world, sys_g);
+    let id2 = spawn_system(&mut world, sys_x);
     let dead = world.spawn_empty().id();
     world.despawn(dead);
-    IDS.with(|ids| *ids.borrow_mut() = vec![id0, id1, SysId::new(dead)]);
+    IDS.with(|ids| *ids.borrow_mut() = vec![id0, id1, id2, SysId::new(dead)]);
     let mut model = Model17::default();
     let mut violations = Vec::new();
     let mut stop = false;
@@ -214,6 +247,8 @@ fn classify17(exp: &[Rec], got: &[Rec]) -> String
             return match (e, g)
             {
                 (Rec::Run{ local: a, .. }, Rec::Run{ local: b, .. }) if a != b => "state-not-persistent-or-shared".into(),
+                (Rec::Run{ func: f1, input: i1, added: a, .. }, Rec::Run{ func: f2, input: i2, added: b, .. }) if f1 == f2 && i1 == i2 && a != b =>
+                    "change-detection-cursor-not-persistent".into(),
                 (Rec::Run{ .. }, Rec::Run{ .. }) => "wrong-input-or-system".into(),
                 (Rec::Ret{ .. }, Rec::Ret{ .. }) => "wrong-output".into(),
                 (Rec::Applied, _) | (_, Rec::Applied) => "commands-applied-late".into(),
@@ -227,8 +262,8 @@ fn classify17(exp: &[Rec], got: &[Rec]) -> String
 pub fn targets() -> Vec<Target>
 {
     vec![
-        Target::Sys(0), Target::Sys(1), Target::Named(0, 0), Target::Named(1, 0), Target::Named(0, 1),
-        Target::Spawned(0), Target::Spawned(1), Target::SpawnedMissing,
+        Target::Sys(0), Target::Sys(1), Target::Sys(2), Target::Named(0, 0), Target::Named(1, 0), Target::Named(0, 1),
+        Target::Named(0, 2), Target::Spawned(0), Target::Spawned(1), Target::Spawned(2), Target::SpawnedMissing,
     ]
 }
 
